@@ -81,6 +81,8 @@ bool attributable(const Op &op, Result &ref, std::string &why) {
     double t0 = nowSeconds();
     ref = execOp(REF, op, o);
     g_lastRefSeconds = nowSeconds() - t0;
+    ref.refLive = ref.status == CALL_RETURNED ? refallocLive() : 0;
+    ref.refBadFrees = ref.status == CALL_RETURNED ? refallocBadFrees() : 0;
     refallocSweep();
     ambientRestore(true);
     if (ref.skipped) {
@@ -131,6 +133,23 @@ static void heapVerdicts(const ExecReport &rep, std::vector<Verdict> &v) {
     }
 }
 
+// The same tree built with the DEFAULT allocator binding (the reference copy) must balance its allocations too:
+// that build contains the code under "#ifndef H3_ALLOC_PREFIX", which the simulated copy does not.
+static void refBalanceVerdicts(const Result &ref, const char *leakClass, const char *freeClass,
+                               std::vector<Verdict> &v) {
+    if (ref.refLive > 0)
+        v.push_back({leakClass,
+                     std::to_string(ref.refLive) +
+                         " block(s) still allocated when the call returned in the default-allocator build of the "
+                         "same tree (code compiled only without H3_ALLOC_PREFIX)",
+                     0});
+    if (ref.refBadFrees > 0)
+        v.push_back({freeClass,
+                     std::to_string(ref.refBadFrees) +
+                         " free() of a pointer that is not a live block in the default-allocator build of the same tree",
+                     0});
+}
+
 std::vector<Verdict> judgeC17(const Case &c, const Result &ref,
                               const ExecReport &rep) {
     std::vector<Verdict> v;
@@ -178,6 +197,7 @@ std::vector<Verdict> judgeC17(const Case &c, const Result &ref,
                          0});
     }
     heapVerdicts(rep, v);
+    if (v.empty()) refBalanceVerdicts(ref, "O3-leak", "O4-bad-free", v);
     return v;
 }
 
@@ -234,6 +254,7 @@ std::vector<Verdict> judgeC16(const Case &c, const Result &ref,
                      "guard bytes around a caller-owned buffer (or the const "
                      "input set) were modified",
                      0});
+    if (v.empty()) refBalanceVerdicts(ref, ref.rc == 0 ? "R3-leak-after-destroy" : "R2-leak-on-error", "R4-bad-free", v);
     return v;
 }
 
